@@ -87,8 +87,8 @@ def rule_optread(c: Ctx) -> RuleResult:
         reaching_methods = set()
         stop = {m for name, m in rend.methods.items() if name in allowed}
         for name, m in rend.methods.items():
-            if name == "__init__":
-                continue
+            if name == "__init__" or (name.startswith("_") and not name.startswith("__")):
+                continue          # a private helper is no entry point: the methods that call it are judged themselves
             if name in allowed:
                 if m in reader_funcs or (_reach_nodispatch(c, m) & reader_funcs):
                     reaching_methods.add(name)
